@@ -28,10 +28,21 @@ import (
 	"verif/instr"
 )
 
-const (
-	verifDir = "/verif"
-	repoDir  = "/repo"
+const verifDir = "/verif"
+
+// repoDir is /repo; VCHECK_REPO points the driver at another checkout (used only by
+// tools/seed_eval_alt.sh to judge a seeded change in a scratch worktree while /repo is busy) -
+// the evidence of such a run goes to evidence-alt/, never to evidence/.
+var (
+	repoDir     = "/repo"
+	evidenceDir = "evidence"
 )
+
+func init() {
+	if r := os.Getenv("VCHECK_REPO"); r != "" {
+		repoDir, evidenceDir = r, "evidence-alt"
+	}
+}
 
 type knownFinding struct {
 	Property  string `json:"property"`
@@ -140,7 +151,17 @@ func main() {
 	}
 	// 2. build the harness against the overlay
 	bin := filepath.Join(scratch, "vharness")
-	cmd := exec.Command("go", "build", "-overlay", ov, "-tags", "verif", "-o", bin, "./cmd/vharness")
+	buildArgs := []string{"build", "-overlay", ov, "-tags", "verif", "-o", bin}
+	if repoDir != "/repo" {
+		// alternative checkout: same go.mod with the replace directive pointing there
+		gm, _ := os.ReadFile(filepath.Join(verifDir, "go.mod"))
+		gs, _ := os.ReadFile(filepath.Join(verifDir, "go.sum"))
+		alt := strings.Replace(string(gm), "=> /repo", "=> "+repoDir, 1)
+		os.WriteFile(filepath.Join(scratch, "go.mod"), []byte(alt), 0o644)
+		os.WriteFile(filepath.Join(scratch, "go.sum"), gs, 0o644)
+		buildArgs = append(buildArgs, "-modfile="+filepath.Join(scratch, "go.mod"))
+	}
+	cmd := exec.Command("go", append(buildArgs, "./cmd/vharness")...)
 	cmd.Dir = verifDir
 	cmd.Env = goEnv()
 	if out, err := cmd.CombinedOutput(); err != nil {
@@ -172,7 +193,7 @@ func main() {
 		}
 	}
 	if budget == 0 {
-		budget = 50 * time.Second
+		budget = 120 * time.Second
 		if tier == "thorough" {
 			budget = 12 * time.Minute
 		}
@@ -305,7 +326,7 @@ func main() {
 		}
 	}
 	os.MkdirAll(filepath.Join(verifDir, "replays"), 0o755)
-	os.MkdirAll(filepath.Join(verifDir, "evidence"), 0o755)
+	os.MkdirAll(filepath.Join(verifDir, evidenceDir), 0o755)
 	nUnlisted := 0
 	var lines []string
 	var vioSummary []map[string]interface{}
@@ -393,7 +414,7 @@ func main() {
 		"violations":  nUnlisted,
 	}
 	eb, _ := json.MarshalIndent(ev, "", " ")
-	if err := os.WriteFile(filepath.Join(verifDir, "evidence", id+".json"), eb, 0o644); err != nil {
+	if err := os.WriteFile(filepath.Join(verifDir, evidenceDir, id+".json"), eb, 0o644); err != nil {
 		die(2, "evidence: %v", err)
 	}
 	for _, l := range lines {
